@@ -4,11 +4,12 @@ drained, 8-bit wrap refutation) + C03_conservation. Tie: T-src (counter width) +
 from be_common import Case, Track, HDR_LOG
 from be_check import run_be, replay_be
 import props.c03 as c03
+from teb_phase import teb_phase
 
 PID = 'C20'
 MANIFEST = dict(
-    text='Machine-checked (Coq) on the backend micro-step model for every interleaving and any number of thread start/exit cycles: the dead-context counter equals the number of registered contexts of exited threads mod 2^bits (width read from the source each run), clean-up is attempted exactly when one exists (below 2^bits pending), a context is removed only when its thread is dead and its queue and transit buffer are empty, so (conservation, C03) pending statements of exited threads are delivered first; the pinned tree\'s 8-bit counter is refuted at 256 exits (D2, fixed). Model run against the real backend with up to 513 short-lived threads per case; monitor: after a drain the number of retained contexts equals the number of live threads that logged, and nothing is lost. Not covered by a theorem: queue shrinking (unbounded queues are not in M-BE yet) and the relaxed flag under non-TSO hardware (M-BE is sequentially consistent).',
-    design='5 C20', technique='Coq invariant proof (counter tracks dead contexts) over the backend micro-step machine + source-fact translator + deterministic-driver differential correspondence')
+    text='Machine-checked (Coq) on the backend micro-step model for every interleaving and any number of thread start/exit cycles: the dead-context counter equals the number of registered contexts of exited threads mod 2^bits (width read from the source each run), clean-up is attempted exactly when one exists (below 2^bits pending), a context is removed only when its thread is dead and its queue and transit buffer are empty, so (conservation, C03) pending statements of exited threads are delivered first; the pinned tree\'s 8-bit counter is refuted at 256 exits (D2, fixed). Model run against the real backend with up to 513 short-lived threads per case; monitor: after a drain the number of retained contexts equals the number of live threads that logged, and nothing is lost. Shrinking the backend buffer: the slot array of TransitEventBuffer (M-TEB: positions, mask, _expand, request_shrink / try_shrink; variant read from the source) is proved to behave like a plain list for every initial capacity and every history of backend calls - try_shrink changes no queued event, acts exactly when requested and empty, and restores the initial capacity; the extracted model, the list and the real class run the same histories (harness/teb.cpp). Not covered by a theorem: the relaxed flag under non-TSO hardware (M-BE is sequentially consistent); M-BE itself keeps the buffer as a list (the refinement is what justifies it).',
+    design='5 C20', technique='Coq invariant proof (counter tracks dead contexts) over the backend micro-step machine + Coq refinement proof (TransitEventBuffer slot array -> list, shrink exact) + source-fact translator + deterministic-driver and unit-level differential correspondence')
 
 
 def gen_exits(facts, n, rng, poll_between=False):
@@ -124,5 +125,9 @@ RULE = ('thread lifecycles through the driver: bursts of n short-lived threads (
         'with and without polls in between, plus random mixes of log/exit/flush/shrink/poll over 2-12 threads (bounded and unbounded queues; shrink_thread_local_queue with the capacity reported afterwards) with log+exit injected at yield points; '
         'every case ends with a drain and a context count; non-trivial = at least one exit and one delivered statement; distinct by case text')
 
-run = run_be(PID, 'Properties_C20', gen, monitor, nontrivial, RULE, n_quick=120, n_thorough=5000, corpus_cases=corpus_cases)
+TRUSTED = None
+def _teb(ck, tier, broken):
+    return teb_phase(ck, tier, broken, 'C20_tie_transit_buffer')
+
+run = run_be(PID, 'Properties_C20', gen, monitor, nontrivial, RULE, n_quick=120, n_thorough=5000, corpus_cases=corpus_cases, extra_phase=_teb)
 replay = replay_be(PID, monitor)
